@@ -487,5 +487,5 @@ func init() {
 		Serial:   true,
 		Atomic:   true,
 	}
-	props["C11"] = &PropSpec{Mode: "conc", Extra: []string{"gap"}, Diffs: []string{"conc", "refs", "hang", "crash", "add.", "del.", "ents", "pend"}, Monitors: []string{"c11", "c03", "c01", "c02"}}
+	props["C11"] = &PropSpec{Mode: "conc", Extra: []string{"gap", "eofdrain"}, Diffs: []string{"conc", "refs", "hang", "crash", "add.", "del.", "ents", "pend"}, Monitors: []string{"c11", "c03", "c01", "c02"}}
 }
